@@ -86,7 +86,7 @@ bool from_json(const rt::JVal &j, Plan11 &p) {
 struct Viol { std::string cls, sig, detail; int step; };
 static __thread seam::OpCtx *g_ctx = nullptr;
 #define LIB(call) ([&]() { seam::lib_enter(g_ctx); auto lib_r_ = (call); seam::lib_exit(); return lib_r_; }())
-#define LIBV(call) do { seam::lib_enter(g_ctx); call; seam::lib_exit(); } while (0)
+#define LIBV(call) do { seam::lib_enter(g_ctx); try { call; } catch (const std::exception &) { lib_threw_ = true; } seam::lib_exit(); } while (0)
 struct Result { std::vector<Viol> v; uint64_t fp = 0x11; uint64_t bytes = 0; uint64_t updates = 0, finals = 0, misuse = 0, early_finals = 0, zero_chunks = 0, interleaved = 0; bool invalid = false; std::vector<rt::Switch> recorded; uint64_t switches = 0, ilv = 0; };
 
 // an invalid output length: just above the limit, and values whose low 8 / 16 / 32 bits look valid
@@ -251,7 +251,10 @@ Result run(const Plan11 &p) {
 			msg_bytes(st.a + 77, 0, in.data(), n);
 			uint8_t h[32]; msg_bytes(st.b + 99, 0, h, 32);
 			uint8_t out[64]; memset(out, CANARY, sizeof out);
+			bool lib_threw_ = false;
+			if (st.s == 1) ctx.faults.push_back(1); // the first allocation request inside the call (if it makes one) fails
 			LIBV(randomx_calculate_commitment(in.data(), n, h, out + 16));
+			if (lib_threw_) { fail("COMMITMENT_THREW", "randomx_calculate_commitment did not deliver a commitment (exception out of the C API after an allocation failure)", "len=" + std::to_string(n), (int)si); R.fp = rt::mix64(R.fp, 0x7417); break; }
 			cat.assign(in.begin(), in.begin() + n); cat.insert(cat.end(), h, h + 32);
 			uint8_t want[32]; model::blake2b_ref(want, 32, cat.data(), cat.size(), nullptr, 0);
 			if (memcmp(out + 16, want, 32) != 0) fail("COMMITMENT_MISMATCH", "commitment != blake2b-256(input||hash)", "len=" + std::to_string(n), (int)si);
@@ -341,6 +344,7 @@ Plan11 generate(uint64_t run_seed, bool thorough, bool huge, bool threaded) {
 		if (done[s]) continue;
 		if (r.chance(1, 40)) { // misuse / invalid calls interleaved with the streams
 			Step m; m.kind = (int)r.pick(std::vector<int>{S_BAD_ONESHOT, S_BAD_INIT, S_BAD_INIT_KEY, S_COMMIT}); m.a = (uint32_t)r.next(); m.b = (uint32_t)r.next(); m.n = r.below(300);
+			if (m.kind == S_COMMIT) { m.s = r.chance(1, 3) ? 1 : 0; if (r.chance(1, 4)) m.n = 225 + r.below(4000); }
 			p.steps.push_back(m);
 			continue;
 		}
